@@ -550,6 +550,9 @@ impl State {
                             && current_file_existed
                             && !current_path.exists()
                         {
+                            #[cfg(feature = "verif_hooks")]
+                            crate::verif_hooks::point("rename_back", None, Some(&*current_path))
+                                .ok();
                             if let Some(renamed_file) =
                                 list_and_cleanup::list_of_log_and_compressed_files(
                                     &self.config.file_spec,
